@@ -20,11 +20,11 @@
 EXTENDS Naturals, Integers, Sequences, FiniteSets, TLC
 
 NoConn == [st |-> "none", key |-> 0, cdrop |-> FALSE, cgone |-> FALSE]
-NoCall == [k |-> 0, st |-> "none", dl |-> 0, sent |-> FALSE, id |-> -1, ans |-> FALSE, canc |-> 0, P |-> 0, h |-> "none", starts |-> 0, gate |-> FALSE, inc |-> 0]
+NoCall == [k |-> 0, st |-> "none", tr |-> "", smp |-> FALSE, dl |-> 0, sent |-> FALSE, id |-> -1, ans |-> FALSE, canc |-> 0, P |-> 0, h |-> "none", starts |-> 0, gate |-> FALSE, inc |-> 0]
 
 YInit(n, limit, mif) ==
   [n |-> n, limit |-> limit, mif |-> mif, now |-> 0, conn |-> <<>>, call |-> <<>>, down |-> FALSE,
-   bad01 |-> {}, bad02 |-> {}, bad03 |-> {}, bad04 |-> {}, bad05 |-> {}, bad06 |-> {}, bad10 |-> {}, bad12 |-> {}, bad13 |-> {}]
+   bad01 |-> {}, bad02 |-> {}, bad03 |-> {}, bad04 |-> {}, bad18 |-> {}, bad05 |-> {}, bad06 |-> {}, bad10 |-> {}, bad12 |-> {}, bad13 |-> {}]
 
 Conn(y, k) == IF k \in DOMAIN y.conn THEN y.conn[k] ELSE NoConn
 Call(y, c) == IF c \in DOMAIN y.call THEN y.call[c] ELSE NoCall
@@ -67,9 +67,9 @@ YServerDrop(y0, k) ==
 (* the client side of connection k is gone: its dispatch ended (it closes the transport first) *)
 YClientGone(y, k) == IF k \in DOMAIN y.conn THEN SetConn(y, k, [y.conn[k] EXCEPT !.cgone = TRUE]) ELSE y
 
-YCall(y0, c, k, dl) ==
+YCall(y0, c, k, dl, tr, smp) ==
   LET y == y0 IN
-  SetCall(y, c, [NoCall EXCEPT !.k = k, !.st = "pending", !.dl = dl])
+  SetCall(y, c, [NoCall EXCEPT !.k = k, !.st = "pending", !.dl = dl, !.tr = tr, !.smp = smp])
 
 (* requests of the same connection that can possibly still be in flight at the server when request c is read: transmitted *)
 (* before it, not answered yet (a request stays in flight until its response is written), handler not aborted             *)
@@ -102,7 +102,7 @@ YServerOut(y0, k, id) ==
 
 Live(y, x) == y.call[x].st = "pending" /\ y.call[x].h = "running" /\ y.now < y.call[x].dl
 
-YHandlerStart(y0, k, c, inc) ==
+YHandlerStart(y0, k, c, inc, tr, smp) ==
   LET y == y0
       r == Call(y, c)
       others == {x \in CallsOf(y, k) \ {c} : Live(y, x)}
@@ -111,7 +111,10 @@ YHandlerStart(y0, k, c, inc) ==
       y3 == Bad(y2, "bad12", y.limit >= 0 /\ Cardinality(others) >= y.limit,
                 "a request was handed to the application while L requests of its channel were still in flight")
       y4 == Bad(y3, "bad12", r.st = "throttled", "a refused request was executed")
-      y5 == Bad(y4, "bad13", Conn(y, k).st \in {"shed", "offered", "none"}, "a request was served on a channel that was shed or never accepted")
+      y5a == Bad(y4, "bad13", Conn(y, k).st \in {"shed", "offered", "none"}, "a request was served on a channel that was shed or never accepted")
+      \* C18 with many requests in flight: the handler observes the trace id and sampling decision of its own call
+      y5 == Bad(y5a, "bad18", r.st # "none" /\ (tr # r.tr \/ smp # r.smp),
+                "a handler observed another trace id or sampling decision than its own call was made with")
   IN IF r.st = "none" THEN y5
      ELSE SetCall(y5, c, [r EXCEPT !.h = "running", !.starts = @ + 1, !.inc = inc])
 
@@ -184,5 +187,5 @@ YIdle(y0, busy) ==
                 "every client handle is gone and nothing is in flight, but the server channel has not ended")
   IN y8
 
-NoBad(y) == y.bad01 = {} /\ y.bad02 = {} /\ y.bad03 = {} /\ y.bad04 = {} /\ y.bad05 = {} /\ y.bad06 = {} /\ y.bad10 = {} /\ y.bad12 = {} /\ y.bad13 = {}
+NoBad(y) == y.bad01 = {} /\ y.bad02 = {} /\ y.bad03 = {} /\ y.bad04 = {} /\ y.bad18 = {} /\ y.bad05 = {} /\ y.bad06 = {} /\ y.bad10 = {} /\ y.bad12 = {} /\ y.bad13 = {}
 =============================================================================
